@@ -21,4 +21,4 @@ for id in "$@"; do
 done
 git -C /repo checkout -- "$file"
 # replays written by mutant runs are not kept
-git -C /verif status --short replays | awk '$1=="??"{print $2}' | xargs -r rm -rf
+(cd /verif && git status --short replays | awk '$1=="??"{print $2}' | xargs -r rm -rf)
